@@ -11,6 +11,11 @@
 (*   End       Closed()/InternalError() of both multiplexers at the end     *)
 (*   Block/Hol/Backlog  timed scenarios of C25 (judged by MuxTime)          *)
 (*                                                                         *)
+(* Ret records of op setwd / setrd are SetWriteDeadline / SetReadDeadline   *)
+(* calls (k = 0 clear, 1 past, 2 far future, 3 near future that then        *)
+(* passes); Call records with blk = TRUE start a Read / Write that may stay *)
+(* blocked and whose Ret follows later.                                     *)
+(*                                                                         *)
 (* The recorded events drive the state S of the Mux specification through   *)
 (* the specification's own operators (DoOpen, DoAccept*, DoReadData,        *)
 (* DoClose*, RecvMsg ...).  The property operators of Mux are evaluated on  *)
@@ -28,13 +33,19 @@ VARIABLES l, fails, st, ax, stats, done
 tvars == <<l, fails, st, ax, stats, done>>
 
 Zero == [e \in E |-> [s \in Ids |-> 0]]
+EmptySeqs == [e \in E |-> [s \in Ids |-> <<>>]]
 NoWire(S) == [S EXCEPT !.wire = [e \in E |-> <<>>]]
-InitAx == [mode |-> "none", pw |-> Zero, sync |-> TRUE]
+\* ax: case mode, pending write lengths, and the OBSERVED histories (ow: bytes offered to / accepted by Write,
+\* or: bytes returned by Read, oe: end-of-stream returned).  S.written/readOut/eof are the model's own prediction.
+InitAx == [mode |-> "none", pw |-> Zero, ow |-> EmptySeqs, or |-> EmptySeqs, oe |-> [e \in E |-> [s \in Ids |-> FALSE]]]
 InitStats == [drift |-> 0, wirebad |-> 0, pred |-> 0, cases |-> 0, dlv |-> 0]
+\* the state the properties judge: protocol flags driven by the recorded calls, histories as observed
+Judged(S, a) == [S EXCEPT !.written = a.ow, !.readOut = a.or, !.eof = a.oe]
 
-IdOK(r) == Has(r, "s") => (r.s >= 0 /\ r.s <= MaxId)
 Script == ax.mode = "script"
 B2N(b) == IF b THEN 1 ELSE 0
+Blk(r) == Has(r, "blk") /\ r.blk
+ModeOf(n) == CASE n = 0 -> "clear" [] n = 1 -> "past" [] n = 2 -> "far" [] OTHER -> "soon"
 
 (***************************************************************************)
 (* Call records                                                            *)
@@ -43,17 +54,23 @@ CallState(S, r) ==
   LET e == r.e  s == r.s IN
   IF r.op = "open" THEN (IF Script /\ CanOpen(S, e) THEN NoWire(DoOpen(S, e)) ELSE S)
   ELSE IF s = 0 THEN S
-  ELSE IF r.op = "write" THEN [S EXCEPT !.written[e][s] = @ \o r.d]
-  ELSE IF r.op = "cw" THEN DoCloseWrite(S, e, s)
-  ELSE IF r.op = "close" THEN DoClose(S, e, s)
+  ELSE IF r.op = "write" THEN
+       (IF ~Script \/ WriteBusy(S, e, s) THEN S
+        ELSE IF Blk(r) THEN NoWire(DoWStart(S, e, s, r.d)) ELSE NoWire(DoWriteBounded(S, e, s, r.d)))
+  ELSE IF r.op = "read" THEN
+       (IF Script /\ Blk(r) /\ ~ReadBusy(S, e, s) THEN NoWire(DoRStart(S, e, s, r.k)) ELSE S)
+  ELSE IF r.op = "cw" THEN NoWire(DoCloseWrite(S, e, s))
+  ELSE IF r.op = "close" THEN NoWire(DoClose(S, e, s))
   ELSE S
-CallAx(r) == IF r.op = "write" /\ r.s > 0 THEN [ax EXCEPT !.pw[r.e][r.s] = Len(r.d)] ELSE ax
+CallAx(r) ==
+  IF r.op = "write" /\ r.s > 0
+  THEN [ax EXCEPT !.pw[r.e][r.s] = Len(r.d), !.ow[r.e][r.s] = @ \o r.d] ELSE ax
 
 (***************************************************************************)
-(* Ret records                                                             *)
+(* Ret records: result = [S, ok]  (ok = FALSE: the specification did not    *)
+(* predict the observed result; counted as drift)                           *)
 (***************************************************************************)
 RECURSIVE AcceptTo(_, _, _)
-\* pops stale entries until the accepted stream is at the head; ok = the specification explains the result
 AcceptTo(S, e, sid) ==
   IF ~CanAccept(S, e) THEN [S |-> S, ok |-> FALSE]
   ELSE IF AcceptHead(S, e) = sid THEN [S |-> NoWire(DoAcceptOK(S, e)), ok |-> TRUE]
@@ -64,7 +81,6 @@ PopStale(S, e) ==
   IF CanAccept(S, e) /\ S.ss[e][AcceptHead(S, e)].rcl THEN PopStale(DoAcceptStale(S, e), e) ELSE S
 Force(S, e, s) == [S EXCEPT !.ss[e][s].reg = TRUE, !.ss[e][s].est = TRUE, !.ss[e][s].api = TRUE]
 
-\* result: [S, ok]   (ok = FALSE: the specification did not predict the observed result)
 RetOpen(S, r) ==
   LET e == r.e IN
   IF r.err = "" THEN
@@ -86,30 +102,25 @@ RetAccept(S, r) ==
   ELSE IF Script THEN (LET T == PopStale(S, e) IN [S |-> T, ok |-> ~CanAccept(T, e) \/ ~Alive(S)])
   ELSE [S |-> S, ok |-> TRUE]
 
+\* the Write returned: the specification's call must have finished with the same count and error
 RetWrite(S, r) ==
-  LET e == r.e  s == r.s
-      pend == ax.pw[e][s]
-      keep == Len(S.written[e][s]) - (pend - r.n)
-      T == [S EXCEPT !.written[e][s] = Take(@, keep)]
-      perr == WriteErr(S, e, s)
-      amt == WriteAmount(S, e, s, r.k)
-  IN
-  IF r.n > pend \/ keep < 0 THEN [S |-> S, ok |-> FALSE]
-  ELSE IF ~Script THEN [S |-> T, ok |-> TRUE]
-  ELSE [S |-> [T EXCEPT !.win[e][s] = IF @ >= r.n THEN @ - r.n ELSE 0],
-        ok |-> IF perr # "" THEN r.err = perr /\ r.n = 0
-               ELSE r.n = amt /\ r.err = (IF amt = r.k THEN "" ELSE "timeout")]
+  LET e == r.e  s == r.s  b == S.wb[e][s] IN
+  IF ~Script THEN [S |-> S, ok |-> TRUE]
+  ELSE [S |-> NoWire(DoWEnd(S, e, s)), ok |-> b.fin /\ b.cnt = r.n /\ b.res = r.err]
 
+\* the Read returned: for a bounded Read the whole call is run here, a blocking one was started at its Call
 RetRead(S, r) ==
   LET e == r.e  s == r.s
-      c == Len(r.d)
-      o == ReadOutcome(S, e, s)
-      consistent == Script /\ o = "data" /\ c <= Len(S.rbuf[e][s]) /\ r.d = Take(S.rbuf[e][s], c)
-      T == IF consistent THEN DoReadData(S, e, s, c) ELSE [S EXCEPT !.readOut[e][s] = @ \o r.d]
-      U == IF r.err = "EOF" THEN DoReadEOF(T, e, s) ELSE T
-  IN [S |-> U,
-      ok |-> ~Script \/ CASE o = "data" -> consistent /\ r.err = "" /\ c = ReadAmount(S, e, s, r.k)
-                          [] OTHER -> r.err = o /\ c = 0]
+      A == IF Blk(r) \/ ReadBusy(S, e, s) THEN S ELSE DoReadBounded(S, e, s, r.k)
+      b == A.rb[e][s]
+  IN IF ~Script THEN [S |-> S, ok |-> TRUE]
+     ELSE [S |-> NoWire(DoREnd(A, e, s)), ok |-> b.fin /\ b.res = r.err /\ b.data = r.d]
+
+RetSetDeadline(S, r) ==
+  LET e == r.e  s == r.s  m == ModeOf(r.k) IN
+  IF ~Script THEN [S |-> S, ok |-> TRUE]
+  ELSE IF r.op = "setwd" THEN [S |-> NoWire(DoSetWD(S, e, s, m)), ok |-> r.err = SetWDErr(S, e, s)]
+  ELSE [S |-> NoWire(DoSetRD(S, e, s, m)), ok |-> r.err = SetRDErr(S, e, s)]
 
 RetResult(S, r) ==
   IF r.op = "open" THEN RetOpen(S, r)
@@ -117,17 +128,30 @@ RetResult(S, r) ==
   ELSE IF r.s = 0 THEN [S |-> S, ok |-> TRUE]
   ELSE IF r.op = "write" THEN RetWrite(S, r)
   ELSE IF r.op = "read" THEN RetRead(S, r)
+  ELSE IF r.op \in {"setwd", "setrd"} THEN RetSetDeadline(S, r)
   ELSE [S |-> S, ok |-> ~Script \/ r.err = "" \/ ~Alive(S)]
 
-\* properties judged at a read return (S = state before the record)
-ChunkInOrder(S, e, s, d) ==
-  LET pos == Len(S.readOut[e][s])  wr == S.written[Peer(e)][s] IN
+\* observed histories
+RetAx(r) ==
+  IF r.s = 0 THEN ax
+  ELSE IF r.op = "write" THEN
+       LET pend == ax.pw[r.e][r.s]  keep == Len(ax.ow[r.e][r.s]) - (pend - r.n) IN
+       IF r.n > pend \/ keep < 0 THEN ax
+       ELSE [ax EXCEPT !.ow[r.e][r.s] = Take(@, keep), !.pw[r.e][r.s] = 0]
+  ELSE IF r.op = "read" THEN
+       [ax EXCEPT !.or[r.e][r.s] = @ \o r.d, !.oe[r.e][r.s] = @ \/ r.err = "EOF"]
+  ELSE ax
+RetWellObserved(r) == (r.op = "write" /\ r.s > 0) => r.n <= ax.pw[r.e][r.s]
+
+\* properties judged at a read return (state before the record)
+ChunkInOrder(e, s, d) ==
+  LET pos == Len(ax.or[e][s])  wr == ax.ow[Peer(e)][s] IN
   pos + Len(d) <= Len(wr) /\ \A i \in 1..Len(d) : d[i] = wr[pos + i]
 ReadFails(i, S, r) ==
   IF r.op # "read" \/ r.s = 0 THEN <<>>
   ELSE LET e == r.e  s == r.s IN
-       Chk(Want, i, "C23_InOrder", ChunkInOrder(S, e, s, r.d))
-    \o Chk(Want, i, "C23_NoCrossTalk", Range(r.d) \subseteq Range(S.written[Peer(e)][s]))
+       Chk(Want, i, "C23_InOrder", ChunkInOrder(e, s, r.d))
+    \o Chk(Want, i, "C23_NoCrossTalk", Range(r.d) \subseteq Range(ax.ow[Peer(e)][s]))
     \o Chk(Want, i, "C23_EOFComplete", r.err = "EOF" => S.ss[Peer(e)][s].cw \/ S.ss[Peer(e)][s].cl)
     \o Chk(Want, i, "C25_NoHang", r.err # "watchdog")
 
@@ -139,7 +163,8 @@ C24_StaysUp(r) == ~r.explicit => (~r.closed[1] /\ ~r.closed[2])
 \* every stream an application still held open was read to its end
 C23_Complete(S) == \A e \in E, s \in Ids : (S.ss[e][s].api /\ ~S.ss[e][s].cl) => S.eof[e][s]
 Streamy == ax.mode \in {"script", "free"}
-EndFails(i, S, r) ==
+EndFails(i, S0, r) ==
+  LET S == Judged(S0, ax) IN
      Chk(Want, i, "C24_StaysUp", C24_StaysUp(r))
   \o Chk(Want, i, "C24_NoViolation", C24_NoViolation(Observed(S, r)))
   \o Chk(Want, i, "C23_InOrder", C23_InOrder(S))
@@ -172,7 +197,8 @@ Next3(i, r) ==   \* <<new st, new ax, new stats, failures>>
   ELSE IF r.ev = "Call" THEN <<CallState(st, r), CallAx(r), stats, <<>>>>
   ELSE IF r.ev = "Ret" THEN
        LET res == RetResult(st, r) IN
-       <<res.S, ax, [stats EXCEPT !.pred = @ + B2N(Script), !.drift = @ + B2N(~res.ok)], ReadFails(i, st, r)>>
+       <<res.S, RetAx(r), [stats EXCEPT !.pred = @ + B2N(Script), !.drift = @ + B2N(~res.ok \/ ~RetWellObserved(r))],
+         ReadFails(i, st, r)>>
   ELSE IF r.ev = "Wire" THEN
        <<st, ax, [stats EXCEPT !.wirebad = @ + B2N(r.s < 1 \/ r.s > MaxId \/ ~SenderRule(st, r.e, MsgOf(r)))], <<>>>>
   ELSE IF r.ev = "Dlv" THEN
